@@ -89,10 +89,13 @@ def point_map(p):
 
 
 def normalized_pol(pol):
-    c = np.array(pol, dtype=float)
+    pol = [complex(*x['c']) if isinstance(x, dict) and 'c' in x else x
+           for x in pol]
+    c = np.array(pol, dtype=complex if any(isinstance(x, complex)
+                                           for x in pol) else float)
     if c.shape == (2,):
         c = np.append(c, 0)
-    return c / np.sqrt(np.sum(c ** 2))
+    return c / np.sqrt(np.sum(np.abs(c) ** 2))
 
 
 def all_finite(p):
